@@ -240,6 +240,8 @@ class GetArea(Contract):
             for k in proper_kind_pairs():
                 yield {"n": n, "m": 1, "kinds": k, "labels": "flat"}
             yield {"n": n, "m": 1, "kinds": ("fin", "fin"), "labels": "per_index"}
+            if n >= 2:
+                yield {"n": n, "m": 1, "kinds": ("fin", "fin"), "labels": "moving_position"}
             if n == 2 or (n >= 2 and tier == "thorough"):
                 yield {"n": n, "m": 2, "kinds": ("fin", "fin", "fin", "fin"), "labels": "flat"}
         if tier == "thorough":
@@ -256,12 +258,22 @@ class GetArea(Contract):
         if case["labels"] == "flat":
             labels = ["s1", "s2"]
             present = [True] * n
-        else:
+            pos = [1] * n
+            clps = [S.real_array(f"c{i}", 2) for i in range(n)]
+        elif case["labels"] == "per_index":
             # the clp is missing at odd indices (constraint removed it there)
             labels = [["s1", "s2"] if i % 2 == 0 else ["s1"] for i in range(n)]
             present = [i % 2 == 0 for i in range(n)]
-        clps = [S.real_array(f"c{i}", 2 if present[i] else 1) for i in range(n)]
-        return ("s2", labels, clps, intervals, axis), {"present": present}
+            pos = [1] * n
+            clps = [S.real_array(f"c{i}", 2 if present[i] else 1) for i in range(n)]
+        else:
+            # linked datasets with different label sets: the position of the clp in the list changes along the axis
+            cycle = (["s2", "s3"], ["s1", "s2", "s3"], ["s1", "s2"], ["s3", "s1"])
+            labels = [list(cycle[i % 4]) for i in range(n)]
+            present = ["s2" in labs for labs in labels]
+            pos = [labs.index("s2") if "s2" in labs else None for labs in labels]
+            clps = [S.real_array(f"c{i}", len(labels[i])) for i in range(n)]
+        return ("s2", labels, clps, intervals, axis), {"present": present, "pos": pos}
 
     def call(self, S, case, inp):
         from glotaran.optimization.estimation_provider import _get_area
@@ -284,7 +296,7 @@ class GetArea(Contract):
         counts = [0] * n
         foreign = 0
         for v in area:
-            hit = [i for i in range(n) if present[i] and _same(v, clps[i][1])]
+            hit = [i for i in range(n) if present[i] and _same(v, clps[i][extra["pos"][i]])]
             if len(hit) == 1:
                 counts[hit[0]] += 1
             else:
@@ -329,16 +341,16 @@ def _same(a, b):
 def _area_sweep(self, tier, seed):
     from contracts.common import native_sweep, sorted_env
 
-    cases = [{"n": n, "m": m, "kinds": ("fin", "fin") * m, "labels": lab} for n in (15, 40) for m in (1, 3) for lab in ("flat", "per_index")]
+    cases = [{"n": n, "m": m, "kinds": ("fin", "fin") * m, "labels": lab} for n in (15, 40) for m in (1, 3) for lab in ("flat", "per_index", "moving_position")]
 
     def env(case, rng):
         e = sorted_env("a", case["n"], rng, -20, 20)
         pts = list(e.values())
         # the postcondition recognises a clp by its value: all clp values distinct
-        vals = rng.sample(range(-3000, 3000), 2 * case["n"])
+        vals = rng.sample(range(-3000, 3000), 3 * case["n"])
         for i in range(case["n"]):
-            for k in (0, 1):
-                e[f"c{i}_{k}"] = vals[2 * i + k] / 1000.0
+            for k in (0, 1, 2):
+                e[f"c{i}_{k}"] = vals[3 * i + k] / 1000.0
         for j in range(case["m"]):
             for nm in (f"lo{j}", f"hi{j}"):
                 e[nm] = rng.choice(pts) if rng.random() < 0.5 else round(rng.uniform(-25, 25), 3)
